@@ -21,6 +21,14 @@ _WIP = "check not built yet in this session (design in DESIGN.md section 6); not
 NOT_APPLICABLE = {("C%02d" % i): _WIP for i in range(1, 21)}
 
 PROPS = {
+    "C10": {
+        "engine": "c10",
+        "technique": "Coq proof (totality, delivery and frame of the upload-path walker by induction on the path; legacy walker refuted) + differential correspondence against RawParams.AddUpload and malformed requests on every transport",
+        "level_text": "Theorems for every variables value and every map path: the repaired AddUpload never panics, on success the addressed position holds the upload and every position leaving the path reads as before; the pinned-commit walker is refuted on five shapes. The model is run against the real AddUpload on all 1- and 2-segment paths over seven variable shapes on every check. Transport-level malformed input (null bodies, bad multipart, websocket frames) is exercised against the real transports with the recover hook counted; that part is observation tied to a small decode model, and rests on encoding/json, mime/multipart and gorilla not panicking (partial).",
+        "level_note": "Trusted: Coq kernel + vm_compute; harness (path segmentation by strings.Split/strconv.Atoi is done in the harness as input translation); encoding/json, mime/multipart, gorilla/websocket.",
+        "trusted": ["strings.Split / strconv.Atoi classification of path segments is performed by the harness (input translation)"],
+        "assumptions": ["'for any bytes' at the transport level rests on encoding/json, mime/multipart and gorilla/websocket not panicking (exercised, not proved)"],
+    },
     "C08": {
         "engine": "c08",
         "technique": "Coq proof (UTF-8 decoder vs RFC 3629 encoder, JSON string grammar, decimal printer/parser round trip) + differential correspondence of writeQuotedString, integer marshalers/unmarshalers, FieldSet/Array against the model",
